@@ -25,7 +25,7 @@ import (
 	"verifharness/lib/stats"
 )
 
-var recWait = stats.New("waiters", "stateful rapid sequences on one real KVNode behind a schedule-owning fake raft: submit (GETSET / INCR / SETNX / LPUSH / LPOP on 3 keys, asynchronously, up to 12 in flight), cancel a queued proposal through the cancel function raft holds (the request must fail at once with the proposal-cancelled error), drop a cancelled entry for good or let it commit later, commit the next 1-6 queued entries as one apply batch. Oracle: every request that was not cancelled is answered with exactly the reference model's reply for its command at its place in the commit order, and only once its own entry has been applied (an apply-path panic such as 'done chan is full' fails the case); after the last step no request id is left in the pending table and the data equals the model over the committed entries (cancelled-but-committed ones included). non-trivial = a cancelled entry was committed while a later request was in flight")
+var recWait = stats.New("waiters", "stateful rapid sequences on one real KVNode behind a schedule-owning fake raft: submit (GETSET / INCR / INCRBY / SETNX / LPUSH / DEL / HSET on 5 keys, asynchronously, up to 12 in flight), cancel a queued proposal through the cancel function raft holds (the request must fail at once with the proposal-cancelled error), drop a cancelled entry for good or let it commit later, commit the next 1-6 queued entries as one apply batch. Oracle: every request that was not cancelled is answered with exactly the reference model's reply for its command at its place in the commit order, and only once its own entry has been applied (an apply-path panic such as 'done chan is full' fails the case); after the last step no request id is left in the pending table and the data equals the model over the committed entries (cancelled-but-committed ones included). non-trivial = a cancelled entry was committed while a later request was in flight")
 
 type wreq struct {
 	id        uint64
@@ -74,7 +74,12 @@ func TestPendingTable(t *testing.T) {
 				seq++
 				key := "t:k" + fmt.Sprint(rapid.IntRange(0, 1).Draw(t, "key"))
 				var args []string
-				switch rapid.IntRange(0, 5).Draw(t, "cmd") {
+				switch rapid.IntRange(0, 8).Draw(t, "cmd") {
+				case 6, 7:
+					// DEL and HSET join the engine write batch of an apply batch (kvbatchOperator), as INCR does
+					args = []string{"del", key}
+				case 8:
+					args = []string{"hset", "t:h", fmt.Sprintf("f%d", seq%3), fmt.Sprintf("h%d", seq)}
 				case 0, 1:
 					args = []string{"getset", key, fmt.Sprintf("v%d", seq)}
 				case 2:
@@ -190,7 +195,7 @@ func TestPendingTable(t *testing.T) {
 				fail("request #%d (%s; cancelled=%v committed=%v) is finished but its id is still in the pending request table", r.id, strings.Join(r.args, " "), r.cancelled, r.applied)
 			}
 		}
-		for _, rc := range [][]string{{"get", "t:k0"}, {"get", "t:k1"}, {"get", "t:n"}, {"lrange", "t:l", "0", "-1"}} {
+		for _, rc := range [][]string{{"get", "t:k0"}, {"get", "t:k1"}, {"get", "t:n"}, {"lrange", "t:l", "0", "-1"}, {"hgetall", "t:h"}} {
 			got := sim.Do(append([]string{rc[0], "default:" + rc[1]}, rc[2:]...)...).One()
 			want := m.Apply(0, 1700000000, rc)
 			if !resp.Equal(got, want) {
